@@ -380,6 +380,15 @@ class _LinalgProxy:
             return out
         return root(sq, 2)
 
+    def eigh(self, a, *args, **kw):
+        # LAPACK: object arrays holding only plain numbers (born under the facade) are demoted; a symbolic matrix is out of reach
+        a = _np.asarray(a)
+        if a.dtype == object:
+            if has_sym(a):
+                raise OutOfReach("np.linalg.eigh of a symbolic matrix")
+            a = demote(a)
+        return _np.linalg.eigh(a, *args, **kw)
+
     def _batched(self, a, fn, out_mat):
         a = _np.asarray(a)
         lead = a.shape[:-2]
